@@ -184,7 +184,8 @@ func readStage(fname string, r *rand.Rand, n int) (core.Stage, error) {
 					at := abs.Path{}
 					if k > 1 {
 						at = nodes[r.Intn(len(nodes))]
-						if len(at) > 0 && !at.IsEntry() && f.DS.Node(at.SPath()).Kind == "list" {
+						// a list node as target (depth counted from the list) - not on every tree
+						if len(at) > 0 && !at.IsEntry() && f.DS.Node(at.SPath()).Kind == "list" && r.Intn(2) == 0 {
 							at = abs.Path{}
 						}
 					}
